@@ -46,25 +46,13 @@ Proof.
 Qed.
 
 Definition pos_le (n : nat) (e : xpe) : Prop := match x_pos e with Some p => p <= n | None => True end.
-(* crash sites not excluded by proof.  Excluded (proved unreachable below): the subscripts / asserts that
-   follow a pattern match, the three dictionary lookups whose key is always present, tokens[0] of the
-   expanded path, tokens[0] of the node test, tokens[-1] of the predicate loop.
-   Still allowed although meant to be unreachable (they need the invariant "a group is always enclosed
-   by its bracket tokens", not proved): S_path_not_implemented, S_step_last_not_token, S_step_pi_arg_index,
-   S_step_pi_arg_not_token, S_step_test_not_token, S_step_pred_last_not_token, S_expr_first_not_token. *)
-Definition site_possible (c : site) : bool :=
-  match c with
-  | S_guarded_index | S_guarded_assert | S_group_complement | S_step_operators_lookup
-  | S_expr_operators_lookup | S_path_first | S_step_pred_last_index | S_step_test_index => false
-  | _ => true
-  end.
-Definition unguarded (c : site) : Prop := site_possible c = true.
+(* no crash site is reachable: every PCrash of the model is excluded by proof *)
+Definition unguarded (c : site) : Prop := False.
 Definition good {A} (n : nat) (r : pres A) : Prop := rsat (pos_le n) unguarded r.
 
 Lemma good_at_position {A} n p (m : pres A) : p <= n -> good n m -> good n (at_position p m).
 Proof. intros Hp. destruct m; cbn; auto. Qed.
 
-Ltac ung := reflexivity.
 
 Lemma tkind_eqb_eq a b : tkind_eqb a b = true -> a = b.
 Proof. destruct a, b; cbn; intros H; try reflexivity; discriminate. Qed.
@@ -173,11 +161,117 @@ Proof.
   intros H Hp. apply lall_of_In. intros x Hx. eapply lall_In; [exact H|]. eapply partition_In; eassumption.
 Qed.
 
+(* ---- every group directly follows its opening bracket token, is not empty, and so on inside ---- *)
+Definition opener_kind (k : tkind) : bool := tkind_eqb k OPEN_BRACKET || tkind_eqb k OPEN_PARENS.
+Definition opens (x : ttree) : bool := match x with TT t => is_opener t | TG _ => false end.
+Definition hwf_gen (W : ttree -> Prop) : bool -> list ttree -> Prop :=
+  fix go (po : bool) (l : list ttree) {struct l} : Prop :=
+    match l with
+    | [] => True
+    | x :: r => (match x with TT _ => True | TG _ => po = true end) /\ W x /\ go (opens x) r
+    end.
+Fixpoint thw (t : ttree) : Prop :=
+  match t with TT _ => True | TG l => l <> [] /\ hwf_gen thw false l end.
+Definition hwf := hwf_gen thw.
+Fixpoint flag (po : bool) (a : list ttree) : bool := match a with [] => po | x :: r => flag (opens x) r end.
+
+Lemma kind_nonopener t k : tkind_eqb (t_kind t) k = true -> opener_kind k = false -> is_opener t = false.
+Proof. intros H K. apply tkind_eqb_eq in H. unfold is_opener. rewrite H. exact K. Qed.
+
+Lemma hwf_app po a b : hwf po (a ++ b) <-> hwf po a /\ hwf (flag po a) b.
+Proof.
+  revert po. induction a as [|x r IH]; intros po; cbn; [tauto|]. unfold hwf in *. rewrite IH. tauto.
+Qed.
+Lemma hwf_weaken po l : hwf false l -> hwf po l.
+Proof. destruct l as [|[t|g] r]; cbn; [tauto|tauto|]. intros [H _]. discriminate. Qed.
+Lemma hwf_firstn : forall l po k, hwf po l -> hwf po (firstn k l).
+Proof.
+  induction l as [|x r IH]; intros po [|k] H; cbn; try exact I. cbn in H. destruct H as [H1 [H2 H3]].
+  repeat split; try assumption. apply IH, H3.
+Qed.
+Lemma hwf_skipn_after : forall l po i t, hwf po l -> nth_error l i = Some (TT t) -> is_opener t = false ->
+  hwf false (skipn (S i) l).
+Proof.
+  induction l as [|x r IH]; intros po [|i] t H E K; cbn in E; try discriminate.
+  - inversion E; subst. cbn in H. destruct H as [_ [_ H]]. cbn in H. rewrite K in H. exact H.
+  - cbn in H. destruct H as [_ [_ H]]. exact (IH _ _ _ H E K).
+Qed.
+Lemma hwf_tail po x r : hwf po (x :: r) -> hwf (opens x) r.
+Proof. cbn. tauto. Qed.
+Lemma hwf_In : forall l po x, hwf po l -> In x l -> thw x.
+Proof.
+  induction l as [|y r IH]; intros po x H Hx; [destruct Hx|]. cbn in H. destruct Hx as [->|Hx]; [tauto|].
+  eapply IH; [apply H|exact Hx].
+Qed.
+
+(* partition_tokens keeps it: a part starts at the beginning or after a separator, which is not a bracket *)
+Lemma partition_hwf sep : (forall t, is_tok_kind sep (TT t) = true -> is_opener t = false) ->
+  forall tokens cur, hwf false cur -> hwf (flag false cur) tokens ->
+  forall part, In part (partition_aux sep tokens cur) -> hwf false part.
+Proof.
+  intros Hsep. induction tokens as [|t r IH]; intros cur Hc Ht part Hp; cbn [partition_aux] in Hp.
+  - destruct Hp as [<-|[]]. exact Hc.
+  - destruct (is_tok_kind sep t) eqn:E.
+    + assert (Hr : hwf false r).
+      { destruct t as [y|g]; [|discriminate]. apply hwf_tail in Ht. cbn in Ht. rewrite (Hsep y E) in Ht. exact Ht. }
+      destruct (null cur).
+      * exact (IH [] I Hr part Hp).
+      * destruct Hp as [<-|Hp]; [exact Hc|exact (IH [] I Hr part Hp)].
+    + apply (IH (cur ++ [t])); [| |exact Hp].
+      * apply hwf_app. split; [exact Hc|]. cbn in Ht. cbn. tauto.
+      * assert (F : forall a po, flag po (a ++ [t]) = opens t) by (induction a as [|z a IHa]; intros po; cbn; [reflexivity|apply IHa]).
+        rewrite F. apply hwf_tail in Ht. exact Ht.
+Qed.
+Lemma sep_not_opener sep : opener_kind sep = false -> forall t, is_tok_kind sep (TT t) = true -> is_opener t = false.
+Proof. intros K t H. cbn in H. eapply kind_nonopener; eassumption. Qed.
+
+(* expand_axes keeps it: the replaced tokens and their replacements are not brackets *)
+Definition exp_flag_ok (e : tkind * list (str * tkind)) : bool :=
+  negb (opener_kind (fst e)) && negb (null (snd e))
+  && negb (opener_kind (snd (last (snd e) ([], NAME)))).
+Lemma expansions_flag_ok : forallb exp_flag_ok axis_expansions = true.
+Proof. vm_compute. reflexivity. Qed.
+Lemma assoc_kind_forallb_pair {A} (f : tkind * A -> bool) k : forall tbl v,
+  forallb f tbl = true -> assoc_kind k tbl = Some v -> exists k', tkind_eqb k k' = true /\ f (k', v) = true.
+Proof.
+  induction tbl as [|[k' v'] r IH]; intros v H E; cbn in *; [discriminate|].
+  apply andb_true_iff in H. destruct H as [H1 H2]. destruct (tkind_eqb k k') eqn:K.
+  - inversion E; subst. exists k'. split; assumption.
+  - apply IH; assumption.
+Qed.
+Lemma flag_map_tt p : forall l po, l <> [] ->
+  flag po (map (fun sk => TT (mkTok p (fst sk) (snd sk))) l) = opener_kind (snd (last l ([], NAME))).
+Proof.
+  induction l as [|sk r IH]; intros po H; [congruence|]. destruct r as [|sk' r'].
+  - reflexivity.
+  - specialize (IH (opens (TT (mkTok p (fst sk) (snd sk)))) ltac:(discriminate)). cbn [map flag last] in *. exact IH.
+Qed.
+Lemma hwf_map_tt p : forall l po, hwf po (map (fun sk => TT (mkTok p (fst sk) (snd sk))) l).
+Proof. induction l as [|sk r IH]; intros po; cbn; [exact I|]. repeat split. apply IH. Qed.
+
+Lemma expand1_hwf t po : (match t with TT _ => True | TG _ => po = true end) -> thw t ->
+  hwf po (expand1 t) /\ flag po (expand1 t) = opens t.
+Proof.
+  intros H1 H2. destruct t as [x|g]; cbn [expand1];
+    [|split; [split; [exact H1|split; [exact H2|exact I]]|reflexivity]].
+  destruct (assoc_kind (t_kind x) axis_expansions) as [l|] eqn:E;
+    [|split; [split; [exact I|split; [exact I|exact I]]|reflexivity]].
+  destruct (assoc_kind_forallb_pair exp_flag_ok _ _ _ expansions_flag_ok E) as [k' [K F]].
+  unfold exp_flag_ok in F. cbn [fst snd] in F. apply andb_true_iff in F. destruct F as [F F3].
+  apply andb_true_iff in F. destruct F as [F1 F2]. split; [apply hwf_map_tt|].
+  rewrite flag_map_tt; [|destruct l; [discriminate|discriminate]].
+  apply negb_true_iff in F3. rewrite F3. cbn. symmetry. apply negb_true_iff in F1. eapply kind_nonopener; eassumption.
+Qed.
+Lemma expand_hwf : forall tokens po, hwf po tokens -> hwf po (expand_axes tokens).
+Proof.
+  induction tokens as [|t r IH]; intros po H; [exact I|]. cbn in H. destruct H as [H1 [H2 H3]].
+  unfold expand_axes. cbn [flat_map]. destruct (expand1_hwf t po H1 H2) as [E1 E2].
+  apply hwf_app. split; [exact E1|]. rewrite E2. apply IH, H3.
+Qed.
+
 (* ---- parse_evaluation_expression ---- *)
 Definition inb (n : nat) (t : token) : Prop := t_pos t < n.
 
-Lemma py_int_good n s : good n (py_int s).
-Proof. unfold py_int. destruct (Nat.ltb _ _); cbn; [ung|exact I]. Qed.
 Lemma function_ctor_good n name args : good n (function_ctor name args).
 Proof.
   unfold function_ctor. destruct (assoc name xpath_functions) as [[k v]|]; [|exact I].
@@ -238,14 +332,46 @@ Ltac tail_nil L :=
 Ltac exact_shape E L :=
   apply all_match_shape in E; destruct E as [E L]; shape E; tail_nil L.
 
+Lemma find_token_kind kd s : forall tokens i0 i t,
+  find_token kd s tokens i0 = Some (i, t) -> tkind_eqb (t_kind t) kd = true.
+Proof.
+  induction tokens as [|x r IH]; intros i0 i t H; cbn in H; [discriminate|].
+  destruct x as [y|g]; [|eapply IH; exact H].
+  destruct (tkind_eqb (t_kind y) kd && str_eqb (t_str y) s) eqn:E; [|eapply IH; exact H].
+  inversion H; subst. apply andb_true_iff in E. apply E.
+Qed.
+Lemma operators_not_brackets : forallb (fun o => negb (opener_kind (fst o))) operator_order = true.
+Proof. vm_compute. reflexivity. Qed.
+Lemma find_operator_nonopener : forall ops tokens i t,
+  forallb (fun o => negb (opener_kind (fst o))) ops = true ->
+  find_operator ops tokens = Some (i, t) -> is_opener t = false.
+Proof.
+  induction ops as [|[kd s] r IH]; intros tokens i t Hall H; cbn in H; [discriminate|].
+  cbn in Hall. apply andb_true_iff in Hall. destruct Hall as [H1 H2].
+  destruct (find_token kd s tokens 0) as [[j u]|] eqn:E.
+  - inversion H; subst. apply find_token_kind in E. apply negb_true_iff in H1. eapply kind_nonopener; eassumption.
+  - eapply IH; eassumption.
+Qed.
+Lemma comma_not_opener : forall t, is_tok_kind COMMA (TT t) = true -> is_opener t = false.
+Proof. apply sep_not_opener. reflexivity. Qed.
+
+Lemma group_inside n tokens g : lall (inb n) tokens -> hwf false tokens -> In (TG g) tokens ->
+  lall (inb n) g /\ hwf false g /\ g <> [].
+Proof.
+  intros H1 H2 Hin. pose proof (lall_In _ _ _ H1 Hin) as A. apply tall_TG in A.
+  pose proof (hwf_In _ _ _ H2 Hin) as B. cbn in B. tauto.
+Qed.
+
 Lemma body_good n rec tokens :
-  lall (inb n) tokens ->
-  (forall l, lsize l < lsize tokens -> lall (inb n) l -> good n (rec l)) ->
+  lall (inb n) tokens -> hwf false tokens ->
+  (forall l, lsize l < lsize tokens -> lall (inb n) l -> hwf false l -> good n (rec l)) ->
   good n (parse_evaluation_expression_body rec tokens).
 Proof.
-  intros Hall Hrec. unfold parse_evaluation_expression_body.
+  intros Hall Hw Hrec. unfold parse_evaluation_expression_body.
+  destruct (null tokens) eqn:Nt; [exact I|].
   destruct (all_tokens_match tokens [S_ NUMBER]) eqn:E1.
-  { exact_shape E1 L. cbn [nth_tok nth_error pbind]. apply rsat_bind; [apply py_int_good|]. intros; exact I. }
+  { exact_shape E1 L. cbn [nth_tok nth_error pbind]. destruct (py_int (t_str t)); [exact I|].
+    cbn in Hall. unfold inb in Hall. cbn. unfold pos_le; cbn. lia. }
   destruct (all_tokens_match tokens [S_ STRING]) eqn:E2.
   { exact_shape E2 L. exact I. }
   destruct (all_tokens_match tokens [S_ STRUDEL; S_ NAME]) eqn:E3.
@@ -254,37 +380,43 @@ Proof.
   { exact_shape E4 L. exact I. }
   destruct (all_tokens_match tokens [S_ NAME; S_ OPEN_PARENS; None; S_ CLOSE_PARENS]) eqn:E5.
   { exact_shape E5 L. cbn [nth_tok nth_group nth_error pbind].
-    cbn [lall tall] in Hall. destruct Hall as [Ht [_ [Hg _]]]. apply tall_TG in Hg.
+    destruct (group_inside n _ g Hall Hw ltac:(right; right; left; reflexivity)) as [Hg [Hgw _]].
+    cbn [lall tall] in Hall. destruct Hall as [Ht _].
     apply rsat_bind.
     - apply rsat_pmap. intros part Hp. apply rsat_bind; [|intros; exact I].
-      apply Hrec; [|eapply partition_lall; eassumption].
-      apply partition_size in Hp. cbn [lsize]. rewrite tsize_TG. cbn [tsize]. lia.
+      apply Hrec; [|eapply partition_lall; eassumption|].
+      + apply partition_size in Hp. cbn [lsize]. rewrite tsize_TG. cbn [tsize]. lia.
+      + exact (partition_hwf COMMA comma_not_opener g [] I Hgw part Hp).
     - intros args _. apply good_at_position; [unfold inb in Ht; lia|apply function_ctor_good]. }
   destruct (all_tokens_match tokens [S_ NAME; S_ OPEN_PARENS; S_ CLOSE_PARENS]) eqn:E6.
   { exact_shape E6 L. cbn [nth_tok nth_error pbind]. apply function_ctor_good. }
   destruct (all_tokens_match tokens [S_ OPEN_PARENS; None; S_ CLOSE_PARENS]) eqn:E7.
   { exact_shape E7 L. cbn [nth_tok nth_group nth_error pbind].
-    cbn [lall tall] in Hall. destruct Hall as [_ [Hg _]]. apply tall_TG in Hg.
-    apply Hrec; [|exact Hg]. cbn [lsize]. rewrite tsize_TG. cbn [tsize]. lia. }
+    destruct (group_inside n _ g Hall Hw ltac:(right; left; reflexivity)) as [Hg [Hgw _]].
+    apply Hrec; [|exact Hg|exact Hgw]. cbn [lsize]. rewrite tsize_TG. cbn [tsize]. lia. }
   destruct (find_operator operator_order tokens) as [[i token]|] eqn:F.
-  - destruct (Nat.ltb 0 i && Nat.ltb i (length tokens - 1)); [|cbn; ung].
-    pose proof (find_operator_lookup _ _ _ _ (proj1 operator_order_in_operators) F) as Lk.
+  - pose proof (find_operator_lookup _ _ _ _ (proj1 operator_order_in_operators) F) as Lk.
+    pose proof (find_operator_nonopener _ _ _ _ operators_not_brackets F) as Nop.
     apply find_operator_spec in F. pose proof (nth_split_size _ _ _ F) as Sz. cbn [tsize] in Sz.
-    destruct (lall_split (inb n) tokens i Hall) as [Hl _].
-    destruct (lall_split (inb n) tokens (S i) Hall) as [_ Hr].
-    apply rsat_bind; [apply Hrec; [lia|exact Hl]|]. intros left _.
-    apply rsat_bind; [apply Hrec; [lia|exact Hr]|]. intros right _.
-    cbv zeta. destruct (operators_lookup (t_str token)); [exact I|congruence].
-  - destruct tokens as [|[t0|g] r]; cbn; try ung.
-    cbn in Hall. unfold inb in Hall. unfold pos_le; cbn. lia.
+    destruct (Nat.ltb 0 i && Nat.ltb i (length tokens - 1)).
+    + destruct (lall_split (inb n) tokens i Hall) as [Hl _].
+      destruct (lall_split (inb n) tokens (S i) Hall) as [_ Hr].
+      apply rsat_bind; [apply Hrec; [lia|exact Hl|apply hwf_firstn, Hw]|]. intros left _.
+      apply rsat_bind; [apply Hrec; [lia|exact Hr|eapply hwf_skipn_after; eassumption]|]. intros right _.
+      cbv zeta. destruct (operators_lookup (t_str token)); [exact I|congruence].
+    + apply nth_error_In in F. pose proof (lall_In _ _ _ Hall F) as Ht. cbn in Ht. unfold inb in Ht.
+      cbn. unfold pos_le; cbn. lia.
+  - destruct tokens as [|[t0|g] r]; [discriminate| |].
+    + cbn in Hall. unfold inb in Hall. cbn. unfold pos_le; cbn. lia.
+    + cbn in Hw. destruct Hw as [Hw _]. discriminate.
 Qed.
 
 Lemma parse_expr_good n : forall fuel tokens,
-  lsize tokens < fuel -> lall (inb n) tokens -> good n (parse_evaluation_expression fuel tokens).
+  lsize tokens < fuel -> lall (inb n) tokens -> hwf false tokens -> good n (parse_evaluation_expression fuel tokens).
 Proof.
-  induction fuel as [|fuel IH]; intros tokens Hs Hall; [inversion Hs|].
-  cbn [parse_evaluation_expression]. apply body_good; [exact Hall|].
-  intros l Hl Hal. apply IH; [lia|exact Hal].
+  induction fuel as [|fuel IH]; intros tokens Hs Hall Hw; [inversion Hs|].
+  cbn [parse_evaluation_expression]. apply body_good; [exact Hall|exact Hw|].
+  intros l Hl Hal Hlw. apply IH; [lia|exact Hal|exact Hlw].
 Qed.
 
 (* ---- group_enclosed_expressions ---- *)
@@ -346,7 +478,7 @@ Proof.
       - destruct openers as [|o r]; [exact Hsz|].
         rewrite base_of_push, (base_of_cons o r (S i) i). exact Hsz. }
     destruct (is_closer tok).
-    { destruct openers as [|[sp st] ops]; [cbn; ung|].
+    { destruct openers as [|[sp st] ops]; [cbn; unfold pos_le; cbn; apply real_pos_le, Htok|]. cbn [null].
       inversion Hop as [|x y [Hsp [Hst Hso]] Hops]; subst. cbn [fst snd] in *.
       pose proof (opener_has_complement st Hso) as Hcomp.
       destruct (assoc_kind (t_kind st) complementing); [|congruence].
@@ -394,6 +526,73 @@ Proof.
   - cbn. lia.
 Qed.
 
+(* a successful grouping is well formed: groups directly follow their opening bracket, are not empty,
+   and are directly followed by a closing bracket token *)
+Definition isTT (x : ttree) : Prop := match x with TT _ => True | TG _ => False end.
+Definition next_is_closer (r : list ttree) : Prop := match r with TT c :: _ => is_closer c = true | _ => False end.
+Fixpoint seq2 (L : list ttree) : Prop :=
+  match L with [] => True | x :: r => (isTT x \/ next_is_closer r) /\ seq2 r end.
+Definition gwf (c : list ttree) : Prop := hwf false c /\ flag false c = false /\ seq2 c.
+
+Lemma flag_app : forall a po b, flag po (a ++ b) = flag (flag po a) b.
+Proof. induction a as [|x r IH]; intros po b; cbn; [reflexivity|apply IH]. Qed.
+Lemma seq2_app a b : seq2 a -> seq2 b -> seq2 (a ++ b).
+Proof.
+  induction a as [|x r IH]; intros Ha Hb; [exact Hb|]. cbn [app seq2] in *. destruct Ha as [Hx Hr].
+  split; [|apply IH; assumption]. destruct Hx as [Hx|Hx]; [left; exact Hx|right].
+  destruct r as [|[c|g] r']; try contradiction. exact Hx.
+Qed.
+Lemma gwf_app result X : gwf result -> hwf false X -> flag false X = false -> seq2 X -> X <> [] -> gwf (result ++ X).
+Proof.
+  intros [H1 [H2 H3]] X1 X2 X3 Xne. repeat split.
+  - apply hwf_app. rewrite H2. split; assumption.
+  - rewrite flag_app, H2. exact X2.
+  - apply seq2_app; assumption.
+Qed.
+
+Lemma group_loop_gwf rec tokens : (forall l c, rec l = POk c -> gwf c) ->
+  forall rest i result openers c,
+    gwf result -> Forall (fun o => is_opener (snd o) = true) openers ->
+    group_loop rec tokens rest i result openers = POk c -> gwf c.
+Proof.
+  intros Hrec. induction rest as [|tok rest IH]; intros i result openers c Hres Hop H; cbn [group_loop] in H.
+  - destruct openers as [|[sp st] ops]; [inversion H; subst; exact Hres|discriminate].
+  - destruct (is_opener tok) eqn:Eop.
+    { eapply IH; [exact Hres| |exact H]. constructor; [exact Eop|exact Hop]. }
+    destruct (is_closer tok) eqn:Ecl.
+    { destruct openers as [|[sp st] ops]; [discriminate|]. cbn [null] in H.
+      inversion Hop as [|x y Hst Hops]; subst. cbn [snd] in Hst.
+      destruct (assoc_kind (t_kind st) complementing); [|discriminate].
+      destruct (negb (tkind_eqb (t_kind tok) t)); [discriminate|].
+      destruct ops as [|o r].
+      - destruct (rec (py_slice tokens (S sp) i)) as [contents|e|x|] eqn:R; cbn [pbind] in H; try discriminate.
+        apply Hrec in R. destruct R as [R1 [R2 R3]].
+        eapply IH; [|constructor|exact H].
+        destruct (null contents) eqn:Nc.
+        + apply gwf_app; [exact Hres| | | |discriminate].
+          * cbn. tauto.
+          * cbn. exact Eop.
+          * cbn. tauto.
+        + apply gwf_app; [exact Hres| | | |discriminate].
+          * split; [exact I|]. split; [exact I|]. split; [cbn; exact Hst|]. split; [|split; [exact I|split; [exact I|exact I]]].
+            split; [destruct contents; [discriminate|discriminate]|exact R1].
+          * cbn. exact Eop.
+          * cbn. split; [left; exact I|]. split; [right; exact Ecl|]. split; [left; exact I|exact I].
+      - eapply IH; [exact Hres|exact Hops|exact H]. }
+    destruct openers as [|o r].
+    + eapply IH; [|constructor|exact H]. apply gwf_app; [exact Hres| | | |discriminate].
+      * cbn. tauto.
+      * cbn. exact Eop.
+      * cbn. tauto.
+    + eapply IH; [exact Hres|exact Hop|exact H].
+Qed.
+
+Lemma group_gwf : forall fuel tokens c, group_enclosed_expressions fuel tokens = POk c -> gwf c.
+Proof.
+  induction fuel as [|fuel IH]; intros tokens c H; [discriminate|]. cbn [group_enclosed_expressions] in H.
+  eapply group_loop_gwf; [exact (IH)| |constructor|exact H]. repeat split.
+Qed.
+
 (* ---- induction over token trees ---- *)
 Section TTreeInd.
   Variable P : ttree -> Prop.
@@ -436,7 +635,7 @@ Lemma sinv_skipn n m l k : sinv n m l -> sinv n m (skipn k l).
 Proof. apply sinv_sub. intros x. apply In_skipn. Qed.
 
 Definition pe_ok (n m : nat) (pe : list ttree -> pres expr) : Prop :=
-  forall g, lsize g <= m -> lall (inb n) g -> good n (pe g).
+  forall g, lsize g <= m -> lall (inb n) g -> hwf false g -> good n (pe g).
 
 Lemma last_some_In {A} (l : list A) x : last (map Some l) None = Some x -> In x l.
 Proof.
@@ -469,49 +668,10 @@ Lemma parse_predicates_eq pe tokens :
         match last (map Some tokens) None with
         | None => PCrash S_step_pred_last_index
         | Some (TG _) => PCrash S_step_pred_last_not_token
-        | Some (TT t) => PRej (mkXpe (Some (t_pos t)) msg_parse_location_step_3 false)
+        | Some (TT t) => PRej (mkXpe (Some (t_pos t)) msg_parse_location_step_6 false)
         end
   end.
 Proof. destruct tokens; reflexivity. Qed.
-
-Lemma parse_predicates_good n m pe : pe_ok n m pe ->
-  forall k tokens, length tokens <= k -> sinv n m tokens -> good n (parse_predicates pe tokens).
-Proof.
-  intros Hpe. induction k as [|k IH]; intros tokens Hk Hinv.
-  - destruct tokens; [exact I|cbn in Hk; lia].
-  - rewrite parse_predicates_eq. rename tokens into tk.
-    destruct (initial_tokens_match tk [S_ OPEN_BRACKET; None; S_ CLOSE_BRACKET]) eqn:E.
-    + apply initial_match_shape in E. shape E.
-      destruct Hinv as [H1 H2]. cbn [lall] in H1. destruct H1 as [_ [Hg [_ Hr]]]. apply tall_TG in Hg.
-      inversion H2 as [|? ? _ H2']; subst. inversion H2' as [|? ? Hgs H2'']; subst. inversion H2'' as [|? ? _ H2''']; subst.
-      cbn in Hgs.
-      apply rsat_bind; [apply Hpe; assumption|]. intros p _.
-      apply rsat_bind; [apply number_predicate_good|]. intros p' _.
-      apply rsat_bind; [apply IH; [cbn in Hk; lia|split; assumption]|]. intros; exact I.
-    + destruct tk as [|x0 r0]; [exact I|].
-      destruct (last (map Some (x0 :: r0)) None) as [[t|g]|] eqn:L; try (cbn; ung);
-        [|exfalso; revert L; clear; revert x0; induction r0 as [|y r IH]; intros x0; [discriminate|apply IH]].
-      apply last_some_In in L. destruct Hinv as [H1 _]. pose proof (lall_In _ _ _ H1 L) as Ht. cbn in Ht.
-      unfold pos_le, inb in *; cbn. lia.
-Qed.
-
-Lemma step_axis_spec n m tokens0 : sinv n m tokens0 ->
-  match step_axis tokens0 with
-  | POk (ax, t1) => t1 = tokens0 \/
-                    exists a b, tokens0 = TT a :: TT b :: t1 /\ tkind_eqb (t_kind b) AXIS_SEPARATOR = true
-  | r => good n r
-  end.
-Proof.
-  intros [H1 _]. unfold step_axis. destruct (initial_tokens_match tokens0 _) eqn:E.
-  - apply initial_match_shape in E. shape E. cbn [nth_tok nth_error pbind].
-    cbn [lall tall] in H1. destruct H1 as [Ht _]. unfold inb in Ht.
-    destruct (axis_ctor (t_str t)) as [ax|e|c|] eqn:A; cbn.
-    + right. exists t, t0. split; [reflexivity|exact K0].
-    + unfold pos_le; cbn. lia.
-    + pose proof (axis_ctor_good n (t_str t)) as G. rewrite A in G. exact G.
-    + pose proof (axis_ctor_good n (t_str t)) as G. rewrite A in G. exact G.
-  - pose proof (axis_ctor_good n s_child) as G. destruct (axis_ctor s_child); cbn; auto.
-Qed.
 
 (* the last token of a step, when it is an axis separator, is a token of the expression itself
    (not one written by expand_axes): this is what bounds the position of "Missing node test." *)
@@ -519,66 +679,6 @@ Definition okl (n : nat) (x : ttree) : Prop :=
   match x with TT t => tkind_eqb (t_kind t) AXIS_SEPARATOR = true -> real_token n t | TG _ => True end.
 Definition endok (n : nat) (part : list ttree) : Prop :=
   match last (map Some part) None with Some x => okl n x | None => True end.
-
-Lemma step_prefix_spec n m tokens1 : sinv n m tokens1 ->
-  match step_prefix tokens1 with
-  | POk (_, t2) => sinv n m t2 /\ (tokens1 <> [] -> t2 <> [])
-  | r => good n r
-  end.
-Proof.
-  intros Hinv. unfold step_prefix.
-  destruct (initial_tokens_match tokens1 [S_ NAME; S_ COLON; S_ NAME]) eqn:E1; cbn [orb].
-  - apply initial_match_shape in E1. shape E1. cbn. split; [apply (sinv_skipn n m _ 2 Hinv)|discriminate].
-  - destruct (initial_tokens_match tokens1 [S_ NAME; S_ COLON; S_ ASTERISK]) eqn:E2.
-    + apply initial_match_shape in E2. shape E2. cbn. split; [apply (sinv_skipn n m _ 2 Hinv)|discriminate].
-    + split; [exact Hinv|auto].
-Qed.
-
-Lemma step_node_test_spec n m prefix tokens2 : sinv n m tokens2 -> tokens2 <> [] ->
-  match step_node_test prefix tokens2 with
-  | POk (_, t3) => sinv n m t3
-  | r => good n r
-  end.
-Proof.
-  intros Hinv Hne. unfold step_node_test.
-  destruct (initial_tokens_match tokens2 [S_ NAME; S_ OPEN_PARENS; None; S_ CLOSE_PARENS]) eqn:E1.
-  { apply initial_match_shape in E1. shape E1. cbn [nth_tok nth_group nth_error pbind].
-    destruct (negb _); [cbn; ung|]. destruct g as [|[x|g'] gr]; cbn; try ung.
-    apply (sinv_skipn n m _ 4 Hinv). }
-  destruct (initial_tokens_match tokens2 [S_ NAME; S_ OPEN_PARENS; S_ CLOSE_PARENS]) eqn:E2.
-  { apply initial_match_shape in E2. shape E2. cbn [nth_tok nth_error pbind].
-    destruct (node_type_lookup _); cbn; [|ung]. apply (sinv_skipn n m _ 3 Hinv). }
-  destruct (initial_tokens_match tokens2 [S_ ASTERISK]) eqn:E3.
-  { apply (sinv_skipn n m _ 1 Hinv). }
-  destruct (initial_tokens_match tokens2 [S_ NAME]) eqn:E4.
-  { apply initial_match_shape in E4. shape E4. cbn. apply (sinv_skipn n m _ 1 Hinv). }
-  destruct (initial_tokens_match tokens2 [S_ STRUDEL; S_ NAME]) eqn:E5.
-  { apply initial_match_shape in E5. shape E5. cbn. destruct Hinv as [H1 _]. cbn in H1.
-    unfold pos_le, inb in *; cbn. lia. }
-  destruct tokens2 as [|[t|g] r]; [congruence| |cbn; ung].
-  destruct Hinv as [H1 _]. cbn in H1. unfold pos_le, inb in *; cbn. lia.
-Qed.
-
-Lemma parse_step_good n m pe tokens0 :
-  pe_ok n m pe -> sinv n m tokens0 -> endok n tokens0 -> good n (parse_location_step pe tokens0).
-Proof.
-  intros Hpe Hinv Hend. unfold parse_location_step.
-  pose proof (step_axis_spec n m tokens0 Hinv) as A.
-  destruct (step_axis tokens0) as [[ax t1]|e|c|]; cbn [pbind fst snd]; try exact A.
-  destruct (null t1) eqn:N.
-  - destruct t1; [|discriminate]. unfold step_missing_test. unfold endok in Hend.
-    destruct A as [<-|[a [b [-> Hb]]]]; [cbn; ung|].
-    cbn in *. unfold pos_le; cbn. apply Hend in Hb. unfold real_token in Hb. lia.
-  - assert (Hinv1 : sinv n m t1).
-    { destruct A as [->|[a [b [-> _]]]]; [exact Hinv|apply (sinv_skipn n m _ 2 Hinv)]. }
-    pose proof (step_prefix_spec n m t1 Hinv1) as B.
-    destruct (step_prefix t1) as [[pf t2]|e|c|]; cbn [pbind fst snd]; try exact B.
-    destruct B as [Hinv2 Hne2].
-    assert (Hne1 : t1 <> []) by (destruct t1; [discriminate|discriminate]).
-    pose proof (step_node_test_spec n m pf t2 Hinv2 (Hne2 Hne1)) as C.
-    destruct (step_node_test pf t2) as [[nt t3]|e|c|]; cbn [pbind fst snd]; try exact C.
-    apply rsat_bind; [eapply parse_predicates_good; [exact Hpe|apply Nat.le_refl|exact C]|]. intros; exact I.
-Qed.
 
 (* ---- parse_location_path: the parts of the expanded token list end well ---- *)
 Definition next_not_slash (r : list ttree) : Prop :=
@@ -674,19 +774,230 @@ Proof.
   destruct l; [discriminate|discriminate].
 Qed.
 
-Lemma parse_path_good n m pe tokens :
-  pe_ok n m pe -> lall (real_token n) tokens -> Forall (gsz m) tokens -> good n (parse_location_path pe tokens).
+
+(* ---- what the step parser relies on: positions, sizes, brackets around groups ---- *)
+Lemma seq2_skipn : forall l k, seq2 l -> seq2 (skipn k l).
+Proof. induction l as [|x r IH]; intros [|k] H; cbn; try exact H. apply IH. cbn in H. tauto. Qed.
+Lemma seq2_last : forall l g, seq2 l -> last (map Some l) None = Some (TG g) -> False.
 Proof.
-  intros Hpe Hreal Hsz. unfold parse_location_path. destruct (null tokens) eqn:Nt; [exact I|].
+  induction l as [|x r IH]; intros g H E; cbn in E; [discriminate|]. cbn in H. destruct H as [H1 H2].
+  destruct r as [|y r'].
+  - cbn in E. inversion E; subst. destruct H1 as [H1|H1]; contradiction.
+  - exact (IH g H2 E).
+Qed.
+Lemma seq2_suffix a b : seq2 (a ++ b) -> seq2 b.
+Proof. induction a as [|x r IH]; cbn; [tauto|]. intros [_ H]. exact (IH H). Qed.
+Lemma seq2_prefix a t r : seq2 (a ++ t :: r) -> ~ next_is_closer (t :: r) -> seq2 a.
+Proof.
+  induction a as [|x a' IH]; intros H N; [exact I|]. cbn [app seq2] in *. destruct H as [H1 H2].
+  split; [|exact (IH H2 N)]. destruct H1 as [H1|H1]; [left; exact H1|].
+  destruct a' as [|y a'']; cbn [app] in H1; [contradiction|right; exact H1].
+Qed.
+
+Lemma partition_seq2 sep : (forall t, is_tok_kind sep (TT t) = true -> is_closer t = false) ->
+  forall tokens cur, seq2 (cur ++ tokens) -> forall part, In part (partition_aux sep tokens cur) -> seq2 part.
+Proof.
+  intros Hsep. induction tokens as [|t r IH]; intros cur H part Hp; cbn [partition_aux] in Hp.
+  - destruct Hp as [<-|[]]. rewrite app_nil_r in H. exact H.
+  - destruct (is_tok_kind sep t) eqn:E.
+    + assert (Hc : seq2 cur).
+      { eapply seq2_prefix; [exact H|]. destruct t as [y|g]; [|discriminate]. cbn. rewrite (Hsep y E). discriminate. }
+      assert (Hr : seq2 ([] ++ r)) by (apply seq2_suffix in H; cbn in H; apply H).
+      destruct (null cur).
+      * exact (IH [] Hr part Hp).
+      * destruct Hp as [<-|Hp]; [exact Hc|exact (IH [] Hr part Hp)].
+    + apply (IH (cur ++ [t])); [|exact Hp]. rewrite <- app_assoc. exact H.
+Qed.
+Lemma sep_not_closer sep : (tkind_eqb sep CLOSE_BRACKET || tkind_eqb sep CLOSE_PARENS) = false ->
+  forall t, is_tok_kind sep (TT t) = true -> is_closer t = false.
+Proof. intros K t H. cbn in H. apply tkind_eqb_eq in H. unfold is_closer. rewrite H. exact K. Qed.
+
+Lemma closers_not_expanded c : is_closer c = true -> expand1 (TT c) = [TT c].
+Proof.
+  unfold is_closer. intros H. cbn [expand1]. apply orb_true_iff in H.
+  destruct H as [H|H]; apply tkind_eqb_eq in H; rewrite H; reflexivity.
+Qed.
+Lemma expand1_tt_all y : Forall isTT (expand1 (TT y)).
+Proof.
+  cbn [expand1]. destruct (assoc_kind (t_kind y) axis_expansions) as [l|]; [|repeat constructor].
+  induction l; cbn; constructor; [exact I|assumption].
+Qed.
+Lemma seq2_tt_app a b : Forall isTT a -> seq2 b -> seq2 (a ++ b).
+Proof. induction 1 as [|x a Hx _ IH]; intros Hb; [exact Hb|]. cbn. split; [left; exact Hx|exact (IH Hb)]. Qed.
+Lemma expand_seq2 : forall tokens, seq2 tokens -> seq2 (expand_axes tokens).
+Proof.
+  induction tokens as [|t r IH]; intros H; [exact I|]. cbn [seq2] in H. destruct H as [H1 H2].
+  unfold expand_axes. cbn [flat_map]. fold (expand_axes r). destruct t as [y|g].
+  - apply seq2_tt_app; [apply expand1_tt_all|exact (IH H2)].
+  - destruct H1 as [[]|H1]. destruct r as [|[c|g'] r']; try contradiction. cbn in H1.
+    cbn [expand1 app]. split; [|exact (IH H2)]. right.
+    unfold expand_axes. cbn [flat_map]. rewrite (closers_not_expanded c H1). cbn. exact H1.
+Qed.
+
+Definition W (n m : nat) (l : list ttree) : Prop := sinv n m l /\ hwf false l /\ seq2 l.
+
+Lemma W_skipn_after n m l k t : W n m l -> nth_error l k = Some (TT t) -> is_opener t = false -> W n m (skipn (S k) l).
+Proof.
+  intros [H1 [H2 H3]] E K. split; [apply sinv_skipn, H1|]. split; [eapply hwf_skipn_after; eassumption|apply seq2_skipn, H3].
+Qed.
+Lemma W_head_not_group n m g r : W n m (TG g :: r) -> False.
+Proof. intros [_ [H _]]. cbn in H. destruct H as [H _]. discriminate. Qed.
+
+Lemma parse_predicates_good n m pe : pe_ok n m pe ->
+  forall k tokens, length tokens <= k -> W n m tokens -> good n (parse_predicates pe tokens).
+Proof.
+  intros Hpe. induction k as [|k IH]; intros tokens Hk Hinv.
+  - destruct tokens; [exact I|cbn in Hk; lia].
+  - rewrite parse_predicates_eq. rename tokens into tk.
+    destruct (initial_tokens_match tk [S_ OPEN_BRACKET; None; S_ CLOSE_BRACKET]) eqn:E.
+    + apply initial_match_shape in E. shape E.
+      assert (Wr : W n m ts).
+      { apply (W_skipn_after n m _ 2 t0 Hinv eq_refl). eapply kind_nonopener; [exact K0|reflexivity]. }
+      destruct Hinv as [[H1 H2] [H3 _]].
+      destruct (group_inside n _ g H1 H3 ltac:(right; left; reflexivity)) as [Hg [Hgw _]].
+      inversion H2 as [|? ? _ H2']; subst. inversion H2' as [|? ? Hgs _]; subst. cbn in Hgs.
+      apply rsat_bind; [apply Hpe; assumption|]. intros p _.
+      apply rsat_bind; [apply number_predicate_good|]. intros p' _.
+      apply rsat_bind; [apply IH; [cbn in Hk; lia|exact Wr]|]. intros; exact I.
+    + destruct tk as [|x0 r0]; [exact I|].
+      destruct (last (map Some (x0 :: r0)) None) as [[t|g]|] eqn:L.
+      * apply last_some_In in L. destruct Hinv as [[H1 _] _]. pose proof (lall_In _ _ _ H1 L) as Ht. cbn in Ht.
+        unfold pos_le, inb in *; cbn. lia.
+      * exfalso. destruct Hinv as [_ [_ H3]]. exact (seq2_last _ _ H3 L).
+      * exfalso. revert L. clear. revert x0. induction r0 as [|y r IH]; intros x0; [discriminate|apply IH].
+Qed.
+
+Lemma step_axis_spec n m tokens0 : W n m tokens0 ->
+  match step_axis tokens0 with
+  | POk (ax, t1) => W n m t1 /\
+                    (t1 = tokens0 \/
+                     exists a b, tokens0 = TT a :: TT b :: t1 /\ tkind_eqb (t_kind b) AXIS_SEPARATOR = true)
+  | r => good n r
+  end.
+Proof.
+  intros Hw. unfold step_axis. destruct (initial_tokens_match tokens0 _) eqn:E.
+  - apply initial_match_shape in E. shape E. cbn [nth_tok nth_error pbind].
+    assert (Wr : W n m ts).
+    { apply (W_skipn_after n m _ 1 t0 Hw eq_refl). eapply kind_nonopener; [exact K0|reflexivity]. }
+    destruct Hw as [[H1 _] _]. cbn [lall tall] in H1. destruct H1 as [Ht _]. unfold inb in Ht.
+    destruct (axis_ctor (t_str t)) as [ax|e|c|] eqn:A; cbn.
+    + split; [exact Wr|]. right. exists t, t0. split; [reflexivity|exact K0].
+    + unfold pos_le; cbn. lia.
+    + pose proof (axis_ctor_good n (t_str t)) as G. rewrite A in G. exact G.
+    + pose proof (axis_ctor_good n (t_str t)) as G. rewrite A in G. exact G.
+  - pose proof (axis_ctor_good n s_child) as G. destruct (axis_ctor s_child); cbn; auto.
+Qed.
+
+Lemma step_prefix_spec n m tokens1 : W n m tokens1 ->
+  match step_prefix tokens1 with
+  | POk (_, t2) => W n m t2 /\ (tokens1 <> [] -> t2 <> [])
+  | r => good n r
+  end.
+Proof.
+  intros Hinv. unfold step_prefix.
+  destruct (initial_tokens_match tokens1 [S_ NAME; S_ COLON; S_ NAME]) eqn:E1; cbn [orb].
+  - apply initial_match_shape in E1. shape E1. cbn. split; [|discriminate].
+    apply (W_skipn_after n m _ 1 t0 Hinv eq_refl). eapply kind_nonopener; [exact K0|reflexivity].
+  - destruct (initial_tokens_match tokens1 [S_ NAME; S_ COLON; S_ ASTERISK]) eqn:E2.
+    + apply initial_match_shape in E2. shape E2. cbn. split; [|discriminate].
+      apply (W_skipn_after n m _ 1 t0 Hinv eq_refl). eapply kind_nonopener; [exact K0|reflexivity].
+    + split; [exact Hinv|auto].
+Qed.
+
+Lemma node_type_lookup_some name : is_node_type_name name = true -> node_type_lookup name <> None.
+Proof.
+  unfold is_node_type_name, node_type_lookup. destruct (assoc name node_type_test_mapping); [|discriminate].
+  intros _. destruct (kind_of_class_name s); discriminate.
+Qed.
+
+Lemma step_node_test_spec n m prefix tokens2 : W n m tokens2 -> tokens2 <> [] ->
+  match step_node_test prefix tokens2 with
+  | POk (_, t3) => W n m t3
+  | r => good n r
+  end.
+Proof.
+  intros Hinv Hne. unfold step_node_test.
+  destruct (initial_tokens_match tokens2 [S_ NAME; S_ OPEN_PARENS; None; S_ CLOSE_PARENS]) eqn:E1.
+  { apply initial_match_shape in E1. shape E1. cbn [nth_tok nth_group nth_error pbind].
+    assert (Wr : W n m ts).
+    { apply (W_skipn_after n m _ 3 t1 Hinv eq_refl). eapply kind_nonopener; [exact K1|reflexivity]. }
+    destruct Hinv as [[H1 _] [H3 _]].
+    destruct (group_inside n _ g H1 H3 ltac:(right; right; left; reflexivity)) as [_ [Hgw Hgn]].
+    cbn [lall tall] in H1. destruct H1 as [Ht _]. unfold inb in Ht.
+    destruct (negb _); [cbn; unfold pos_le; cbn; lia|].
+    destruct g as [|[x|g'] gr]; [congruence| |cbn in Hgw; destruct Hgw as [Hgw _]; discriminate].
+    cbn. exact Wr. }
+  destruct (initial_tokens_match tokens2 [S_ NAME; S_ OPEN_PARENS; S_ CLOSE_PARENS]) eqn:E2.
+  { apply initial_match_shape in E2. shape E2. cbn [nth_tok nth_error pbind].
+    assert (Wr : W n m ts).
+    { apply (W_skipn_after n m _ 2 t1 Hinv eq_refl). eapply kind_nonopener; [exact K1|reflexivity]. }
+    destruct Hinv as [[H1 _] _]. cbn [lall tall] in H1. destruct H1 as [Ht _]. unfold inb in Ht.
+    destruct (is_node_type_name (t_str t)) eqn:Nn; cbn [negb]; [|cbn; unfold pos_le; cbn; lia].
+    pose proof (node_type_lookup_some _ Nn) as Lk. destruct (node_type_lookup (t_str t)); [|congruence].
+    cbn. exact Wr. }
+  destruct (initial_tokens_match tokens2 [S_ ASTERISK]) eqn:E3.
+  { apply initial_match_shape in E3. shape E3.
+    apply (W_skipn_after n m _ 0 t Hinv eq_refl). eapply kind_nonopener; [exact K|reflexivity]. }
+  destruct (initial_tokens_match tokens2 [S_ NAME]) eqn:E4.
+  { apply initial_match_shape in E4. shape E4. cbn.
+    apply (W_skipn_after n m _ 0 t Hinv eq_refl). eapply kind_nonopener; [exact K|reflexivity]. }
+  destruct (initial_tokens_match tokens2 [S_ STRUDEL; S_ NAME]) eqn:E5.
+  { apply initial_match_shape in E5. shape E5. cbn. destruct Hinv as [[H1 _] _]. cbn in H1.
+    unfold pos_le, inb in *; cbn. lia. }
+  destruct tokens2 as [|[t|g] r]; [congruence| |exfalso; exact (W_head_not_group _ _ _ _ Hinv)].
+  destruct Hinv as [[H1 _] _]. cbn in H1. unfold pos_le, inb in *; cbn. lia.
+Qed.
+
+Lemma parse_step_good n m pe tokens0 :
+  pe_ok n m pe -> W n m tokens0 -> endok n tokens0 -> good n (parse_location_step pe tokens0).
+Proof.
+  intros Hpe Hinv Hend. unfold parse_location_step.
+  pose proof (step_axis_spec n m tokens0 Hinv) as A.
+  destruct (step_axis tokens0) as [[ax t1]|e|c|]; cbn [pbind fst snd]; try exact A.
+  destruct A as [Hinv1 A].
+  destruct (null tokens0) eqn:N0; [exact I|].
+  destruct (null t1) eqn:N.
+  - destruct t1; [|discriminate]. unfold step_missing_test. unfold endok in Hend.
+    destruct A as [<-|[a [b [-> Hb]]]]; [discriminate|].
+    cbn in *. unfold pos_le; cbn. apply Hend in Hb. unfold real_token in Hb. lia.
+  - pose proof (step_prefix_spec n m t1 Hinv1) as B.
+    destruct (step_prefix t1) as [[pf t2]|e|c|]; cbn [pbind fst snd]; try exact B.
+    destruct B as [Hinv2 Hne2].
+    assert (Hne1 : t1 <> []) by (destruct t1; [discriminate|discriminate]).
+    pose proof (step_node_test_spec n m pf t2 Hinv2 (Hne2 Hne1)) as C.
+    destruct (step_node_test pf t2) as [[nt t3]|e|c|]; cbn [pbind fst snd]; try exact C.
+    apply rsat_bind; [eapply parse_predicates_good; [exact Hpe|apply Nat.le_refl|exact C]|]. intros; exact I.
+Qed.
+
+Lemma slash_not_opener : forall t, is_tok_kind SLASH (TT t) = true -> is_opener t = false.
+Proof. apply sep_not_opener. reflexivity. Qed.
+Lemma slash_not_closer : forall t, is_tok_kind SLASH (TT t) = true -> is_closer t = false.
+Proof. apply sep_not_closer. reflexivity. Qed.
+Lemma paseq_not_opener : forall t, is_tok_kind PASEQ (TT t) = true -> is_opener t = false.
+Proof. apply sep_not_opener. reflexivity. Qed.
+Lemma paseq_not_closer : forall t, is_tok_kind PASEQ (TT t) = true -> is_closer t = false.
+Proof. apply sep_not_closer. reflexivity. Qed.
+
+Lemma parse_path_good n m pe tokens :
+  pe_ok n m pe -> lall (real_token n) tokens -> Forall (gsz m) tokens -> hwf false tokens -> seq2 tokens ->
+  good n (parse_location_path pe tokens).
+Proof.
+  intros Hpe Hreal Hsz Hhw Hs2. unfold parse_location_path. destruct (null tokens) eqn:Nt; [exact I|].
   assert (Hinv : sinv n m (expand_axes tokens)).
   { apply expand_sinv. split; [eapply lall_impl; [apply real_inb|exact Hreal]|exact Hsz]. }
   pose proof (expand_seq_ok n tokens Hreal) as Hseq.
-  destruct (expand_axes tokens) as [|[t0|g] r] eqn:E; [exfalso|idtac|cbn; ung].
+  pose proof (expand_hwf tokens false Hhw) as Hehw.
+  pose proof (expand_seq2 tokens Hs2) as Hes2.
+  destruct (expand_axes tokens) as [|[t0|g] r] eqn:E; [exfalso|idtac|exfalso].
   { destruct tokens as [|t r]; [discriminate|]. unfold expand_axes in E. cbn [flat_map] in E.
     apply app_eq_nil in E. destruct E as [E _]. exact (expand1_nonempty t E). }
+  2:{ cbn in Hehw. destruct Hehw as [Hehw _]. discriminate. }
   rewrite <- E in *. apply rsat_bind; [|intros; exact I].
   apply rsat_pmap. intros part Hp. apply parse_step_good with (m := m); [exact Hpe| |].
-  - eapply sinv_sub; [|exact Hinv]. intros x Hx. eapply partition_In; eassumption.
+  - split; [|split].
+    + eapply sinv_sub; [|exact Hinv]. intros x Hx. eapply partition_In; eassumption.
+    + exact (partition_hwf SLASH slash_not_opener _ [] I Hehw part Hp).
+    + exact (partition_seq2 SLASH slash_not_closer _ [] Hes2 part Hp).
   - exact (partition_endok n _ [] Hseq (or_introl (I : endok n [])) part Hp).
 Qed.
 
@@ -695,26 +1006,28 @@ Lemma parse_tokens_good n fuel toks :
 Proof.
   intros Hreal Hlen. unfold parse_tokens.
   pose proof (group_spec n fuel toks Hlen Hreal) as G.
-  destruct (group_enclosed_expressions fuel toks) as [tree|e|c|]; cbn [pbind]; try exact G.
-  destruct G as [G1 G2].
+  destruct (group_enclosed_expressions fuel toks) as [tree|e|c|] eqn:Eg; cbn [pbind]; try exact G.
+  destruct G as [G1 G2]. destruct (group_gwf _ _ _ Eg) as [Ghw [_ Gs2]].
   assert (Hpe : pe_ok n (length toks) (parse_evaluation_expression fuel)).
-  { intros g Hg Hall. apply parse_expr_good; [lia|exact Hall]. }
+  { intros g Hg Hall Hw. apply parse_expr_good; [lia|exact Hall|exact Hw]. }
   assert (Hsz : Forall (gsz (length toks)) tree).
   { apply Forall_forall. intros x Hx. destruct x as [t|g]; [exact I|]. cbn.
     pose proof (tsize_In _ _ Hx) as T. rewrite tsize_TG in T. lia. }
   destruct (existsb (is_tok_kind PASEQ) tree).
-  - apply rsat_pmap. intros part Hp. apply parse_path_good with (m := length toks); [exact Hpe| |].
+  - apply rsat_pmap. intros part Hp. apply parse_path_good with (m := length toks); [exact Hpe| | | |].
     + eapply partition_lall; eassumption.
     + apply Forall_forall. intros x Hx. rewrite Forall_forall in Hsz. apply Hsz. eapply partition_In; eassumption.
+    + exact (partition_hwf PASEQ paseq_not_opener _ [] I Ghw part Hp).
+    + exact (partition_seq2 PASEQ paseq_not_closer _ [] Gs2 part Hp).
   - apply rsat_bind; [apply parse_path_good with (m := length toks); assumption|]. intros; exact I.
 Qed.
 
-(* the summary the property theorems are read off from *)
+(* the summary the property theorems are read off from: never a crash, never out of fuel *)
 Definition outcome_ok (s : str) (o : outcome) : Prop :=
   match o with
   | OOk _ => True
   | ORej p _ _ => p <= length s
-  | OCrash c => unguarded c
+  | OCrash c => False
   | OFuel => False
   end.
 
@@ -825,40 +1138,44 @@ Qed.
 Definition renders (s : str) (p : nat) (m : str) : Prop :=
   exists text, xpe_str (Some s) (Some p) (Some m) = Some text.
 
-Lemma total_refuted :
-  parse [97; 47]%N = OCrash S_step_all_tokens_last   (* a/ *) /\
-  parse [47]%N = OCrash S_step_all_tokens_last   (* / *) /\
-  parse [47; 47]%N = OCrash S_step_all_tokens_last   (* // *) /\
-  parse [115; 101; 108; 102; 58; 58; 110; 111; 100; 101; 40; 41; 91; 49; 93; 47]%N = OCrash S_step_all_tokens_last   (* self::node()[1]/ *) /\
-  parse [108; 97; 115; 116; 40; 41]%N = OCrash S_step_node_type   (* last() *) /\
-  parse [97; 93]%N = OCrash S_group_pop   (* a] *) /\
-  parse [97; 91; 49; 32; 111; 114; 93]%N = OCrash S_expr_operand   (* a[1 or] *) /\
-  parse [97; 91; 61; 93]%N = OCrash S_expr_operand   (* a[=] *) /\
-  parse [102; 111; 111; 40; 49; 41]%N = OCrash S_step_pi_name   (* foo(1) *) /\
-  parse [99; 111; 109; 109; 101; 110; 116; 40; 49; 41]%N = OCrash S_step_pi_name   (* comment(1) *) /\
-  parse [97; 91; 102; 40; 44; 41; 93]%N = OCrash S_expr_empty   (* a[f(,)] *).
-Proof. vm_compute. repeat split; reflexivity. Qed.
-
-Lemma total_false :
-  ~ (forall s, (exists e, parse s = OOk e)
-               \/ (exists p m u, parse s = ORej p m u /\ p <= length s /\ renders s p m)).
+Lemma total s :
+  (exists e, parse s = OOk e) \/ (exists p m u, parse s = ORej p m u /\ p <= length s /\ renders s p m).
 Proof.
-  intros H. specialize (H [97; 47]%N). destruct total_refuted as [W _]. rewrite W in H.
-  destruct H as [[e H]|[p [m [u [H _]]]]]; discriminate.
-Qed.
-
-Lemma no_other_outcome s :
-  (exists e, parse s = OOk e) \/ (exists p m u, parse s = ORej p m u) \/ (exists c, parse s = OCrash c /\ unguarded c).
-Proof.
-  pose proof (parse_from_tokenize_ok s) as H. destruct (parse s) as [e|p m u|c|]; cbn in H.
+  pose proof (parse_from_tokenize_ok s) as H. destruct (parse s) as [e|p m u|c|]; cbn in H; try contradiction.
   - left. eauto.
-  - right; left. eauto.
-  - right; right. eauto.
-  - contradiction.
+  - right. exists p, m, u. repeat split; [exact H|]. eexists. reflexivity.
 Qed.
+
+Lemma total_under overflow s :
+  (exists e, parse_under overflow s = OOk e)
+  \/ (exists p m u, parse_under overflow s = ORej p m u /\ p <= length s /\ renders s p m).
+Proof.
+  unfold parse_under. destruct overflow; [|apply total].
+  right. exists 0, msg_parse_0, false. repeat split; [apply Nat.le_0_l|]. eexists. reflexivity.
+Qed.
+
+Lemma terminates s : parse s <> OFuel.
+Proof. pose proof (parse_from_tokenize_ok s) as H. intros E. rewrite E in H. exact H. Qed.
+
+Lemma never_crashes s c : parse s <> OCrash c.
+Proof. pose proof (parse_from_tokenize_ok s) as H. intros E. rewrite E in H. exact H. Qed.
 
 Lemma position_in_range s p m u : parse s = ORej p m u -> p <= length s.
 Proof. intros E. pose proof (parse_from_tokenize_ok s) as H. rewrite E in H. exact H. Qed.
 
-Lemma rejection_renders s p m (u : bool) : parse s = ORej p m u -> renders s p m.
-Proof. intros _. eexists. reflexivity. Qed.
+(* the inputs on which the parser used to leave through a crash site (findings C16-*, all repaired) *)
+Lemma regression :
+  parse [97; 47]%N = ORej 0 msg_parse_location_step_0 false   (* a/ *) /\
+  parse [47]%N = ORej 0 msg_parse_location_step_0 false   (* / *) /\
+  parse [47; 47]%N = ORej 0 msg_parse_location_step_0 false   (* // *) /\
+  parse [115; 101; 108; 102; 58; 58; 110; 111; 100; 101; 40; 41; 91; 49; 93; 47]%N = ORej 0 msg_parse_location_step_0 false   (* self::node()[1]/ *) /\
+  parse [108; 97; 115; 116; 40; 41]%N = ORej 0 msg_parse_location_step_3 false   (* last() *) /\
+  parse [97; 93]%N = ORej 1 (msg_group_enclosed_expressions_0 [93%N]) false   (* a] *) /\
+  parse [97; 91; 49; 32; 111; 114; 93]%N = ORej 4 (msg_parse_evaluation_expression_2 [111; 114]%N) false   (* a[1 or] *) /\
+  parse [97; 91; 61; 93]%N = ORej 2 (msg_parse_evaluation_expression_2 [61%N]) false   (* a[=] *) /\
+  parse [102; 111; 111; 40; 49; 41]%N = ORej 0 msg_parse_location_step_2 false   (* foo(1) *) /\
+  parse [99; 111; 109; 109; 101; 110; 116; 40; 49; 41]%N = ORej 0 msg_parse_location_step_2 false   (* comment(1) *) /\
+  parse [97; 91; 102; 40; 44; 41; 93]%N = ORej 0 msg_parse_evaluation_expression_0 false   (* a[f(,)] *) /\
+  parse [95; 95; 100; 105; 99; 116; 95; 95; 58; 58; 97]%N = ORej 0 msg_Axis_0 false   (* __dict__::a *) /\
+  parse [97; 110; 99; 101; 115; 116; 111; 114; 95; 111; 114; 95; 115; 101; 108; 102; 58; 58; 97]%N = ORej 0 msg_Axis_0 false   (* ancestor_or_self::a *).
+Proof. vm_compute. repeat split; reflexivity. Qed.
